@@ -18,3 +18,9 @@ mod kstep {
     include!(concat!(env!("KOGE29_VERIF_DIR"), "/kani/step.rs"));
     include!(concat!(env!("KOGE29_VERIF_DIR"), "/kani/forms_gen.rs"));
 }
+
+#[cfg(kani)]
+#[allow(dead_code, unused_imports)]
+mod kc19 {
+    include!(concat!(env!("KOGE29_VERIF_DIR"), "/kani/h_c19.rs"));
+}
